@@ -1,14 +1,15 @@
 package handler
 
 import (
-	"bytes"
 	"errors"
 	"fmt"
 	"io"
 	"io/fs"
 	"log/slog"
+	"math"
 	"os"
 	"path/filepath"
+	"syscall"
 
 	"github.com/spf13/afero"
 
@@ -237,21 +238,39 @@ func (h *Handler) HandleReadFile(ctx *Context, limit uint32, offset uint64, wr s
 		return fmt.Errorf("no file opened")
 	}
 
-	if _, err := ctx.State.ROFile.Seek(int64(offset), io.SeekStart); err != nil {
-		return fmt.Errorf("seek failed: %w", err)
+	// Amount of data is announced before the data itself. Count it instead of collecting the data in memory:
+	// client may ask for 4 GiB by one request.
+	stat, err := ctx.State.ROFile.Stat()
+	if err != nil {
+		return fmt.Errorf("stat failed: %w", err)
 	}
 
-	var buf bytes.Buffer
+	if stat.IsDir() {
+		return fmt.Errorf("read failed: %w", syscall.EISDIR)
+	}
 
-	n, err := buf.ReadFrom(io.LimitReader(ctx.State.ROFile, int64(limit)))
-	if err != nil {
-		return fmt.Errorf("read failed: %w", err)
+	// result length is signed 32-bit, nothing can be read at offsets which are not less than size
+	var n int64
+	if offset < uint64(stat.Size()) {
+		n = min(int64(limit), math.MaxInt32, stat.Size()-int64(offset))
 	}
 
 	log.DebugContext(ctx, "Read file", slog.Int64("read", n))
 
+	if n > 0 {
+		if _, err := ctx.State.ROFile.Seek(int64(offset), io.SeekStart); err != nil {
+			return fmt.Errorf("seek failed: %w", err)
+		}
+	}
+
 	wr.WriteHeader(int32(n))
-	_, err = buf.WriteTo(wr)
+
+	if n == 0 {
+		return nil
+	}
+
+	// if file became shorter meanwhile client can't be told about that anymore: connection will be closed
+	_, err = h.Copier.CopyN(wr, ctx.State.ROFile, n)
 	return err
 }
 
